@@ -159,6 +159,15 @@ def step (_ : Unit) (line : String) : Unit × String :=
       | some (.one b) => "ok v:" ++ showRat (boxVolume b)
       | some (.many bs) => "ok l:" ++ joinWith ";" (bs.map (fun b => showRat (boxVolume b)))
       | _ => "bad-op"
+    | ["ucell90", la, lb, lc] =>
+      match parseRat la, parseRat lb, parseRat lc with
+      | some la, some lb, some lc =>
+        let b := vectorsFromCell90 la lb lc
+        match unitcellExact b with
+        | some (a', b', c', f1, f2, f3) =>
+          s!"ok b:{showVecs [b.r0, b.r1, b.r2]} {showRat a'},{showRat b'},{showRat c'} {boolStr f1},{boolStr f2},{boolStr f3}"
+        | none => "unmodelled"
+      | _, _, _ => "bad-op"
     | ["centroid", _, a] =>
       match parseArr a with
       | some (.l xs) => match centroid xs with
